@@ -66,8 +66,9 @@ Theorem C07_lt_modelled_on_fragment_partial : forall a b, modelled a = true -> m
 Proof. exact lt_defined. Qed.
 Print Assumptions C07_lt_modelled_on_fragment_partial.
 
-(* < on the modelled terms - non-literals, plain / xsd:string / language-tagged literals, [+-]?[0-9]+ xsd:integers -
-   is the strict total order key_lt of a sort key (kind and string; integer value; lower-cased tag and lexical form)
+(* < on the modelled terms - non-literals, plain / xsd:string / language-tagged literals, true/false/1/0 xsd:booleans,
+   [+-]?[0-9]+ xsd:integers and [+-]?digits[.digits] xsd:decimals (numbers of both datatypes together, by exact value) -
+   is the strict order key_lt of a sort key (kind and string; boolean; number; lower-cased tag and lexical form)
    read through the key function skey_of: a STRICT WEAK ORDER, whose ties are exactly the terms with the same key.
    (PARTIAL: the fragment `modelled`; missing: every other literal - dates, times, durations, decimals, doubles, booleans,
    NaN/INF, ill-typed, custom datatypes - whose order is checked by laws and runs only.) *)
@@ -81,7 +82,7 @@ Theorem C07_key_order_strict_weak :
   (forall a, tlt a a = false)
   /\ (forall a b c, tlt a b = true -> tlt b c = true -> tlt a c = true)
   /\ (forall a b c, tlt a b = false -> tlt b c = false -> tlt a c = false)
-  /\ (forall a b, tlt a b = false -> tlt b a = false -> skey_of a = skey_of b).
+  /\ (forall a b, tlt a b = false -> tlt b a = false -> key_eqv (skey_of a) (skey_of b)).
 Proof. exact tlt_strict_weak_order. Qed.
 Print Assumptions C07_key_order_strict_weak.
 
